@@ -5,6 +5,9 @@ the Coq literals small; model and implementation are compared for EACH run):
   {"req":   a structural map request (harness/mapsym.py format; its "storage" entry is ignored here; a function with
             "nullable": true returns a real None -- canonical string "None" -- for some calls, see make_callable),
    "gens":  [[position in req.funcs, ...], ...]   generation structure of the REAL pipeline (submission order),
+   "resume": [{"pre": [part | None, ...], "fx": part | None, "run": <run>}]   runs on an existing store: the folder is
+            pre-filled by sequential map(fixed_indices=part, cleanup=first only) runs, the observed run uses
+            cleanup=False and fixed_indices=fx (part = [[axis, int | ["s", a, b, c]], ...] as in harness/props/c06.py),
    "runs":  [{"pis":  [[slot, ...], ...]           one execution order per generation (controlled executor),
               "eager": [[slot, ...], ...]          optional: slots that start at submission time (a prefix of pis),
               "stor": {function name: storage id}, "stor_form": "str" | "each" | "default",
@@ -64,7 +67,10 @@ RULE = ("random valid map requests (DAGs of 1..4 structural functions, generator
         "generation with <= 4 tasks (others: random permutations), sync and async entry point; real thread pools with "
         "per-call delays; real process pools (quick: on the None chains for every storage and on a few requests with "
         "shared_memory_dict; thorough: everywhere, plus the default executor); the data left in the run folder is "
-        "re-opened after every run } x { dict, file_array, shared_memory_dict, "
+        "re-opened after every run; runs on an existing store: complete folder / resume after fixed_indices parts / "
+        "fixed_indices on an empty folder or after another part, under the controlled executor (incl. eager starts), "
+        "thread pools and (chains, thorough) process pools; structural functions that raise for some calls (error "
+        "class compared) } x { dict, file_array, shared_memory_dict, "
         "per-function mixes; executor single / per output / default+overrides }; non-trivial = a generation with >= 2 "
         "tasks executed in a non-submission order, or a real pool; distinct by (specs, shapes, storages, executor, "
         "entry, schedules)")
@@ -76,12 +82,14 @@ ASSUMPTIONS = [
     "a task that starts while later tasks of its generation are still being submitted is modelled as a task that runs "
     "first (the controlled executor's `eager` slots and the real pools exercise this interleaving with the parent's "
     "submission code)",
-    "fresh run folder (no existing results: args.existing = []); resume is C05",
+    "runs on an existing store (cleanup=False on a folder pre-filled by sequential fixed_indices runs, fixed_indices "
+    "under an executor) are modelled by Model/ParResume.v on C06's Model/MapResume.v; torn / interrupted folders are C05",
     "user functions are deterministic and return arrays of the declared internal shape",
     "generation structure and order inside a generation are taken from the real pipeline (networkx) and validated as a "
     "layering inside Coq",
 ]
-TRUSTED = ["Model/ParGen.v mirrors the generation loop of pipefunc/map/_run.py by hand (on top of Model/MapRun.v)",
+TRUSTED = ["Model/ParGen.v mirrors the generation loop of pipefunc/map/_run.py by hand (on top of Model/MapRun.v); "
+           "Model/ParResume.v the same loop on an existing store (on top of Model/MapResume.v)",
            "harness/props/c03.py: controlled concurrent.futures.Executor, dump recorder (wrapping DictArray.dump / "
            "FileArray.dump), canonical log order",
            "harness/mapsym.py structural user functions and canonicalisation of arrays"]
